@@ -17,6 +17,20 @@ func UnknownFor(r *rng.R, c cty.Value) (ret cty.Value) {
 		// bounds that collide after rounding (huge numbers) are rejected by the builder: fall back
 		if e := recover(); e != nil {
 			ret = cty.UnknownVal(ty)
+			return
+		}
+		// a bound computed next to a huge number can round onto it and, when exclusive, exclude it
+		if c.IsKnown() && !ret.IsKnown() {
+			func() {
+				defer func() {
+					if recover() != nil {
+						ret = cty.UnknownVal(ty)
+					}
+				}()
+				if Admits(ret, c) != "" {
+					ret = cty.UnknownVal(ty)
+				}
+			}()
 		}
 	}()
 	if ty == cty.DynamicPseudoType || r.Chance(30) {
@@ -107,9 +121,11 @@ func Weaken(r *rng.R, v cty.Value, pct int, allowTop bool) cty.Value {
 		if len(p) == 0 && r.Chance(15) {
 			return cty.DynamicVal.WithMarks(ms), nil
 		}
-		free := len(p) == 0
-		if !free {
-			_, free = p[len(p)-1].(cty.GetAttrStep) // members of collections must keep their exact type
+		free := true
+		for _, st := range p {
+			if _, ok := st.(cty.GetAttrStep); !ok {
+				free = false // below a collection every member must keep its exact type
+			}
 		}
 		if ty := u.Type(); free && !ty.IsPrimitiveType() && !ty.IsCapsuleType() && ty != cty.DynamicPseudoType && r.Chance(25) {
 			// an unknown whose type constraint is itself only partly known: placeholders inside the type
